@@ -27,7 +27,17 @@ SITES = [
     (P + "debug/log.rs", "clock", "log_start:SystemTime", "nooutput", "", "", "timestamp stored in the debug log only"),
     (P + "debug/log.rs", "lock", "CURRENT_LOG", "lock", "g_log / g_poisoned", "", "log slot of Model/Globals.v; log_start no longer asserts (F10h fixed by 9396557); LogSuppressLock::drop saturates (F10j fixed by 2f50a3c): no step can poison the lock (c11_concurrent_log_api_independent)"),
     (P + "debug/log.rs", "under-lock", "drop:CURRENT_LOG.write:saturating_sub", "lock", "SSuppressDec", "", "LogSuppressLock::drop: suppress_count = suppress_count.saturating_sub(1) -- cannot panic under the lock (was `-= 1`: F10j, fixed by 2f50a3c); Globals.gstep mirrors the saturation (Nat.pred)"),
-    (P + "debug/log.rs", "under-lock", "log_entry:CURRENT_LOG.write", "lock", "SLogEntry", "", "push under the write lock; the entry closure only serialises an IR"),
+    (P + "debug/log.rs", "under-lock", "log_entry:CURRENT_LOG.write:call:entry", "lock", "SLogEntry", "", "push under the write lock; the `entry` closure parameter is CALLED while the lock is held: every call site is a row `<fn>:log_entry(closure)..` below"),
+    (P + "debug/log.rs", "under-lock", "log_stage:log_entry(closure) x1", "lock", "SLogEntry", "", "closure = DebugEntryKind::NewStage(stage): a constructor"),
+    (P + "debug/messages.rs", "under-lock", "log:log_entry(closure):format! x1", "lock", "SLogEntry", "", "MessageLogger::log: format!(record.args()) runs the Display / Debug impls of the caller's arguments UNDER the write lock -- ASSUMED not to panic and not to log (a log::debug! inside such an impl would re-enter CURRENT_LOG.write() on the same thread); every other field is a copy"),
+    (P + "parser.rs", "under-lock", "parse:log_entry(closure) x2", "lock", "SLogEntry", "", "closure = clone of an IR into a DebugEntryKind constructor"),
+    (P + "parser.rs", "under-lock", "parse_source:log_entry(closure) x1", "lock", "SLogEntry", "", "clone + constructor"),
+    (P + "semantic/mod.rs", "under-lock", "resolve:log_entry(closure) x2", "lock", "SLogEntry", "", "clone + constructor"),
+    (P + "semantic/mod.rs", "under-lock", "resolve_and_lower:log_entry(closure) x1", "lock", "SLogEntry", "", "clone + constructor"),
+    (P + "sql/gen_query.rs", "under-lock", "translate_query:log_entry(closure) x1", "lock", "SLogEntry", "", "clone + Box::new + constructor"),
+    (P + "sql/mod.rs", "under-lock", "compile:log_entry(closure) x1", "lock", "SLogEntry", "", "clone + constructor"),
+    (P + "sql/pq/gen_query.rs", "under-lock", "compile_query:log_entry(closure) x2", "lock", "SLogEntry", "", "clone + constructor"),
+    (P + "sql/pq/preprocess.rs", "under-lock", "preprocess:log_entry(closure) x1", "lock", "SLogEntry", "", "clone + constructor"),
     (P + "debug/log.rs", "under-lock", "log_finish:CURRENT_LOG.write", "lock", "SLogFinish", "", "lock.take()"),
     (P + "debug/log.rs", "under-lock", "log_is_enabled:CURRENT_LOG.read", "lock", "SLogEnabled", "", "read lock, suppress_count == 0"),
     (P + "debug/log.rs", "under-lock", "log_start:CURRENT_LOG.write", "lock", "SLogStart", "", "write().unwrap_or_else(into_inner): works on a poisoned lock; no assert under the lock any more (was F10h)"),
